@@ -151,17 +151,21 @@ ReleaseLeader(l) ==
   /\ UNCHANGED <<scen, order, rcvd, ext, index, tip, verQ, vfy, lost>>
 
 -----------------------------------------------------------------------------
-(* preload thread: get_block(b).expect / get_block_header(parent).expect.                              *)
-(* PreloadOK is what the two `expect`s assume. It does not hold when a second copy of a block, or a    *)
-(* child, is still queued here while the verify thread deletes the failed block. In the code the read  *)
-(* is then served by the store's header/uncle/proposal caches (the block comes back without its body), *)
-(* no panic occurs and Verify rejects the entry by its INVALID status; the model lets the entry through *)
-(* likewise. NoPreloadPanic is therefore documented (design.d/C01.md) but not asserted.                 *)
+(* preload thread. PreloadOK: the block and its parent's header can be read. It fails when a second copy *)
+(* of a block, or a child of it, is still queued here while the verify thread deletes the failed block: *)
+(* the entry is then rejected like any block with an invalid parent (delete, INVALID, callback Err).    *)
+(* PreFix: before fix 7bd0f0e the two reads were `expect`s - the thread panicked and block import died  *)
+(* (the panic was masked by stale store caches until delete_block learned to purge them).              *)
 PreloadOK == preQ # <<>> => Head(preQ) \in stored /\ parent[Head(preQ)] \in stored
 Preload ==
-  /\ preQ # <<>>
-  /\ verQ' = Append(verQ, Head(preQ)) /\ preQ' = Tail(preQ)
-  /\ UNCHANGED <<scen, order, rcvd, dur, status, orphans, pending, svc, vfy, replies, lost>>
+  /\ preQ # <<>> /\ (PreFix => PreloadOK)
+  /\ preQ' = Tail(preQ)
+  /\ LET b == Head(preQ) IN
+     IF PreloadOK
+     THEN /\ verQ' = Append(verQ, b) /\ UNCHANGED <<stored, status, pending, replies>>
+     ELSE /\ stored' = stored \ {b} /\ status' = status \cup {b} /\ pending' = pending \ {b}
+          /\ replies' = Reply(b, "err") /\ UNCHANGED verQ
+  /\ UNCHANGED <<scen, order, rcvd, ext, index, tip, orphans, svc, vfy, lost>>
 
 -----------------------------------------------------------------------------
 (* verify thread *)
@@ -224,7 +228,7 @@ OnlyValidAttached == /\ \A b \in index \ {0} : ok[b] = "ok" /\ parent[b] \in ind
 \* every delivery is accounted for: answered, waiting in the orphan pool, or (duplicate of an orphan) dropped
 Accounted == Quiescent => \A b \in All : Count(order, b) = replies[b].new + replies[b].dup + replies[b].err + lost[b]
                                                           + (IF b \in orphans THEN 1 ELSE 0)
-\* the preload thread never meets a missing block / parent header (would be a panic)
+\* PreFix only: the preload thread never meets a missing block / parent header (a panic that ends block import)
 NoPreloadPanic == PreloadOK
 \* an ext row never outlives its block (delete_block leaves COLUMN_BLOCK_EXT alone; must be unreachable)
 NoGhostExt == \A b \in Blocks : ext[b] # "none" => b \in stored
